@@ -151,6 +151,9 @@ def run(tier, replay=None):
     if not (db["fixed"]["ok"] and db["hdronly_fits"]["ok"]): raise Infra("DeflateBuffer.tla: the repaired budget violates its invariants")
     if db["orig_fits"]["ok"] or db["hdronly"]["ok"]: raise Infra("DeflateBuffer.tla: an unrepaired variant no longer violates its invariant: the model lost its meaning")
     parts = {}
+    tm = {"t": time.time()}
+    def lap(name):
+        tm[name] = round(time.time() - tm["t"], 1); tm["t"] = time.time()
     if not replay:
         parts["ec_encode"] = ecfam.run_family("C05", tier, "enc", "", v=v, memory_only=True)
         parts["ec_update"] = ecfam.run_family("C05", tier, "upd", "", v=v, memory_only=True)
@@ -167,6 +170,7 @@ def run(tier, replay=None):
                 v.violation("%s:%s" % (x["fn"], "fault" if x["faults"] else "write-outside-destination"),
                             "%s: %d faults, %d writes outside the destination in %d guarded calls; first failing case (%s) = %s" % (x["fn"], x["faults"], x.get("scribbles", 0), x["calls"], x["what"], x["bad"]), {"record": x})
         parts["histogram_tables_matrices"] = {"calls": mc_, "faults": mf_}
+        lap("data_plane_and_misc")
     if replay:
         rp = json.load(open(replay))["replay"]
         if "scenario" not in rp: raise Infra("replay of data-plane findings: re-run the owning check (C03/C04/C08/C13/C20) with the recorded seed")
@@ -181,6 +185,7 @@ def run(tier, replay=None):
         res, _ = igz.judge("trace/TraceDeflate", recs, wd, "c05d", shards=14)
         igz.report(v, dsc, res, by, prefix="deflate:", rule_filter=mem_rule)
         calls += summ.get("calls", 0)
+        lap("deflate_scenarios")
     if isc:
         res2, by2, c2, _ = inflfam.run_and_judge(v, [], wd, "none") if False else (None, None, 0, 0)
         vv = Verdict("C05", tier)      # collect, then keep only memory rules
@@ -188,11 +193,12 @@ def run(tier, replay=None):
         for key, desc, rp in vv.violations:
             if mem_rule(key): v.violation("inflate:" + key, desc, rp)
         calls += c2
+    lap("inflate_scenarios")
     fam = {}
     for s in dsc + isc: fam[s["meta"]["family"]] = fam.get(s["meta"]["family"], 0) + 1
     dp_calls = sum(p["calls"] for p in parts.values())
     cov = {"evaluations": dp_calls + calls, "distinct_nontrivial": len(dsc) + len(isc) + len(parts), "data_plane_guarded_calls": dp_calls, "streaming_calls": calls,
-           "streaming_scenarios": fam, "data_plane": parts, "model": {"module": "spec/Memory.tla", "states": m1["distinct"], "stale_variant_violates": True},
+           "streaming_scenarios": fam, "part_wall_s": {k_: v_ for k_, v_ in tm.items() if k_ != "t"}, "data_plane": parts, "model": {"module": "spec/Memory.tla", "states": m1["distinct"], "stale_variant_violates": True},
            "buffer_budget_model": {"module": "spec/DeflateBuffer.tla", "repaired_distinct_states": db["fixed"]["distinct"], "without_header_reserve_BufferFits_fails": True, "without_lookahead_reserve_LookAheadBuffered_fails": True},
            "rule": "every replay runs with each buffer in its own mapping inside a sparse PROT_NONE arena (>= 1 MiB inaccessible on both sides): data-plane entry points (EC encode/dot-product/update/mad/mul, RAID gen/check, all CRC/Adler variants, zero-detect) for every len 0..N with the last byte "
                    "directly before and the first byte directly after an inaccessible page and canaries; streaming deflate/inflate with every input chunk in an exact-size mapping that is unmapped (or recycled and scribbled) the moment it is consumed, the context directly after an inaccessible page, "
